@@ -3,13 +3,15 @@
    accessors are the RFC 1035 bit fields (finite sweep over all 65536 words, lifted); the OPT
    fields are the RFC 6891 split of CLASS/TTL for every 32-bit TTL; a record in the uncompressed
    wire layout (owner name, TYPE, CLASS, TTL, RDLENGTH, A address) decodes to exactly its fields
-   wherever it lies.  The record-level round trip over all 17 types and all legal (compressed)
-   layouts is decided by the roundtrip stream (AST -> several compression
+   wherever it lies; the RECORD DATA of all 17 supported types round-trips: the typed decoder
+   applied to the uncompressed RFC wire form (code-blind Spec/RDataWire.v) of any encodable value
+   returns exactly that value.  Compressed layouts of whole messages are decided by the roundtrip
+   stream (AST -> several compression
    engines -> reader and iterator -> field-by-field comparison); see DESIGN.md §5 C02. *)
 From Coq Require Import ZArith Lia.
 From RsdnsModel Require Import Base GenConst GenCursor GenHeader GenSpec Cursor Names Labels Header Tracker RData Reader Writer.
-From RsdnsModel.Spec Require Import WireName.
-From RsdnsModel.Proofs Require Import CursorSafe ListN Bits WriterLayout RecordRT.
+From RsdnsModel.Spec Require Import WireName RDataWire.
+From RsdnsModel.Proofs Require Import CursorSafe ListN Bits WriterLayout RecordRT RDataRT.
 Open Scope N_scope.
 
 Definition be16 (msg : list byte) (off : N) : N := be_val (subN msg off 2) 0.
@@ -76,3 +78,13 @@ Theorem C02_fixed_part_roundtrip : forall msg pre post c p s ty cl ttl rdlen,
   ty < 65536 -> cl < 65536 -> ttl < 4294967296 -> rdlen < 65536 ->
   m_raw_marker msg p s c = (c_set_pos c (lenN pre + 10), Ok (mkMarker p (lenN pre) ty cl ttl rdlen s)).
 Proof. exact raw_marker_plain. Qed.
+
+(* encode -> decode for the record data of ALL 17 supported types (A, NS, MD, MF, CNAME, SOA, MB, MG,
+   MR, NULL, WKS, PTR, HINFO, MINFO, MX, TXT, AAAA): for every encodable value [a] (field widths,
+   valid names of at most 255 octets, character-strings of at most 255 octets), wherever its RFC
+   wire form [rdata_enc a] lies in a message, the typed decoder with RDLENGTH = its length returns
+   exactly [rdata_val a] and stops right behind it ([consumesW]) *)
+Theorem C02_rdata_roundtrip_all_types : forall msg ty a,
+  rdata_type_ok ty a = true -> ardata_ok a = true ->
+  exists m, read_rdata msg ty (lenN (rdata_enc a)) = Some m /\ consumesW msg m (rdata_enc a) (rdata_val a).
+Proof. exact rdata_roundtrip. Qed.
